@@ -84,7 +84,16 @@ def rand_textpl(rng, maxside):
     w, h = min(w, maxside), min(h, maxside)
     ncol = rng.choice([1, 2, 16, 255, 256, rng.randrange(1, 257)])
     n = texref.ci8_data_size(w, h)
-    return dict(name=b"", w=w, h=h, fmt=9, data=bytes(rng.randrange(ncol) for _ in range(n)), pal=rand_bytes(rng, 2 * ncol))
+    data = bytearray(rng.randrange(ncol) for _ in range(n))
+    if rng.random() < 0.5:
+        # only the visible pixels' indices have to lie inside the palette (C19_palette): the cropped-away padding bytes of the
+        # 8x4 blocks are arbitrary (0xFF / random / = palette size)
+        visible = set(texref.ci8_index(w, x, y) for y in range(h) for x in range(w))
+        fill = rng.choice(["ff", "random", "ncol"])
+        for i in range(n):
+            if i not in visible:
+                data[i] = 0xFF if fill == "ff" else (rng.randrange(256) if fill == "random" else min(ncol, 255))
+    return dict(name=b"", w=w, h=h, fmt=9, data=bytes(data), pal=rand_bytes(rng, 2 * ncol))
 
 
 def tex_tokens(texs):
